@@ -84,15 +84,21 @@ func (m *Model) Infer(t *syntax.Transaction) {
 		credit := t.Bookings[i].Credit.Extract()
 		debit := t.Bookings[i].Debit.Extract()
 		if credit == m.account {
-			t.Bookings[i].Credit = m.inferAccount(t, &t.Bookings[i], debit)
+			if account, ok := m.inferAccount(t, &t.Bookings[i], debit); ok {
+				t.Bookings[i].Credit = account
+			}
 		}
 		if debit == m.account {
-			t.Bookings[i].Debit = m.inferAccount(t, &t.Bookings[i], credit)
+			if account, ok := m.inferAccount(t, &t.Bookings[i], credit); ok {
+				t.Bookings[i].Debit = account
+			}
 		}
 	}
 }
 
-func (m *Model) inferAccount(t *syntax.Transaction, b *syntax.Booking, other string) syntax.Account {
+// inferAccount returns the best candidate. It returns false if the model has
+// no candidate at all, in which case the booking must be left as it is.
+func (m *Model) inferAccount(t *syntax.Transaction, b *syntax.Booking, other string) (syntax.Account, bool) {
 	var (
 		tokens = tokenize(t, b, other)
 		max    = math.Inf(-1)
@@ -108,9 +114,12 @@ func (m *Model) inferAccount(t *syntax.Transaction, b *syntax.Booking, other str
 			max = score
 		}
 	}
+	if best == "" {
+		return syntax.Account{}, false
+	}
 	return syntax.Account{
 		Range: syntax.Range{Start: 0, End: len(best), Text: best},
-	}
+	}, true
 }
 
 func (m *Model) scoreCandidate(candidate string, tokens set.Set[token]) float64 {
